@@ -61,6 +61,32 @@ From PB Require Import Model.PyPrims Generated.PyFuncs Proofs.PyGenLib Proofs.Py
 From PB Require Model.Analysis Spec.Stats.
 Open Scope Q_scope.
 '''
+hdr_price = '''(* Props/C12gen.v -- property C12 (priceability analysis is sound and complete), the REGENERATED tie for the validator:
+   utils.round_cmp and analysis/priceability.validate_price_system (with and without a relaxation object) are translated
+   from the Python source on every run (Generated/PyFuncs.v, harness/vharness/pytrans.py); the theorems say that what
+   the source says NOW is [round_cmp] / [validate_ps] / [validate_ps_g] of Model/Priceability.v, i.e. the validator the
+   theorems of Props/C12.v and Props/C12relax.v are about.  Exact inputs (int / Fraction / mpq); floats are out of scope.
+   The MIP built by priceable() stays with the anchors and the correspondence.
+   Only statements closed by exact; proofs in Proofs/PyGenPriceP.v. *)
+From Coq Require Import String.
+From PB Require Import Model.PyPrims Generated.PyFuncs Proofs.PyGenLib Proofs.PyGenPriceP.
+From PB Require Spec.PriceSystem Model.Priceability.
+Open Scope Q_scope.
+'''
+hdr_jr = '''(* Props/C14gen.v -- property C14 (proportionality checkers match their definitions), the REGENERATED tie:
+   analysis/cohesiveness.py (is_large_enough, is_cohesive_approval, is_cohesive_cardinal, cohesive_groups for approval
+   and cardinal profiles) and analysis/justifiedrepresentation.py (is_in_core, strong-EJR / EJR / PJR for approval and
+   cardinal ballots, with the up-to-any / up-to-one relaxations and their up_to_func lambdas) are translated from the
+   Python source on every run (Generated/PyFuncs.v, harness/vharness/pytrans.py); the theorems say that what the source
+   says NOW is the executable checker of Model/Cohesive.v, which Props/C14.v proves equal to the definitions of
+   Spec/JR.v.  List profiles (every ballot once); the satisfaction class is a parameter and is assumed additive
+   (sat(X) = sum of sat_project), as Model/Cohesive.v reads it.
+   Only statements closed by exact; proofs in Proofs/PyGenJRP.v. *)
+From Coq Require Import String.
+From PB Require Import Model.PyPrims Generated.PyFuncs Proofs.PyGenLib Proofs.PyGenJRP.
+From PB Require Base.JRAux Spec.JR Model.Cohesive.
+Open Scope Q_scope.
+'''
 def emit(path, hdr, prefix, ls, skip=()):
     L = [hdr]
     for n, st in ls:
@@ -75,4 +101,8 @@ print(emit(C + "/theories/Props/C10gen.v", hdr_sat, "C10gen_", lemmas(C + "/theo
            skip=("isort_leb_ext",)),
       emit(C + "/theories/Props/C15gen.v", hdr_inst, "C15gen_", lemmas(C + "/theories/Proofs/PyGenInstP.v")),
       emit(C + "/theories/Props/C18gen.v", hdr_stats, "C18gen_", [x for x in lemmas(C + "/theories/Proofs/PyGenStatsP.v")
+           if x[0].startswith("gen_")]),
+      emit(C + "/theories/Props/C14gen.v", hdr_jr, "C14gen_", [x for x in lemmas(C + "/theories/Proofs/PyGenJRP.v")
+           if x[0].startswith("gen_")]),
+      emit(C + "/theories/Props/C12gen.v", hdr_price, "C12gen_", [x for x in lemmas(C + "/theories/Proofs/PyGenPriceP.v")
            if x[0].startswith("gen_")]))
